@@ -209,8 +209,10 @@ htp_status_t htp_gzip_decompressor_decompress(htp_decompressor_t *drec1, htp_tx_
         // Prepare data for callback.
         htp_tx_data_t dout;
         dout.tx = d->tx;
-        // This is last call, so output uncompressed data so far
-        dout.len = GZIP_BUF_SIZE - drec->stream.avail_out;
+        // This is last call, so output uncompressed data so far. After the decompressor
+        // was shut down because a callback failed (e.g., the compression bomb check) the
+        // buffer holds data that was already handed out; there is nothing left to flush.
+        dout.len = (drec->zlib_initialized) ? GZIP_BUF_SIZE - drec->stream.avail_out : 0;
         if (dout.len > 0) {
             dout.data = drec->buffer;
         } else {
